@@ -379,3 +379,72 @@ func VerifC04History() {
 	}
 	vReach("end")
 }
+
+// VerifC04Many: long handler lists. M handlers (M around the powers of two an
+// implementation might batch or cap by) registered for one event in the foreground
+// or the background set through the public API; one of them (any position) removes
+// itself, or registers a further handler for the same event, while the event is being
+// handled. Every handler registered when the event was dispatched runs exactly once
+// for it, the one registered from inside does not; at the next event the removed one
+// is gone and the late one runs.
+func VerifC04Many() {
+	vSetOpt("deadlockIsViolation", 1)
+	sizes := []int{7, 8, 9, 15, 16, 17, 31, 32, 33, 64, 65}
+	M := sizes[vLen("size", 0, vParam("SIZES", len(sizes))-1)]
+	conn := &Conn{cfg: NewConfig("me"), fgHandlers: handlerSet(), intHandlers: handlerSet(), bgHandlers: handlerSet()}
+	bg := vLen("bg", 0, 1) == 1
+	reg := func(name string, h Handler) Remover {
+		if bg {
+			return conn.HandleBG(name, h)
+		}
+		return conn.Handle(name, h)
+	}
+	counts := make([]int, M)
+	rems := make([]Remover, M)
+	actor := vLen("actor", 0, M-1)
+	act := vLen("act", 0, 2) // 0: nothing, 1: self-removal, 2: registration from inside
+	late := 0
+	var mu sync.Mutex
+	for i := 0; i < M; i++ {
+		i := i
+		rems[i] = reg("ev", HandlerFunc(func(c *Conn, l *Line) {
+			mu.Lock()
+			counts[i]++
+			first := counts[i] == 1
+			mu.Unlock()
+			if i == actor && first {
+				switch act {
+				case 1:
+					rems[i].Remove()
+				case 2:
+					reg("EV", HandlerFunc(func(*Conn, *Line) { mu.Lock(); late++; mu.Unlock() }))
+				}
+			}
+		}))
+	}
+	conn.dispatch(&Line{Cmd: "EV", Raw: "EV"})
+	vRunPending()
+	mu.Lock()
+	for i := 0; i < M; i++ {
+		vAssert(counts[i] == 1, "many:each-registered-handler-once")
+	}
+	vAssert(late == 0, "many:late-registration-not-run-for-this-event")
+	mu.Unlock()
+	conn.dispatch(&Line{Cmd: "Ev", Raw: "Ev"})
+	vRunPending()
+	mu.Lock()
+	for i := 0; i < M; i++ {
+		want := 2
+		if i == actor && act == 1 {
+			want = 1
+		}
+		vAssert(counts[i] == want, "many:next-event-each-live-handler-once-removed-never")
+	}
+	if act == 2 {
+		vAssert(late == 1, "many:late-registration-runs-next-time")
+	} else {
+		vAssert(late == 0, "many:late-registration-runs-next-time")
+	}
+	mu.Unlock()
+	vReach("end")
+}
